@@ -3,7 +3,8 @@
    destruction of a copy.  The footprint model does not count an atomic read-modify-write as a data race; this file says what
    atomicity buys: whatever the interleaving of the threads' copy / destroy steps, no update is lost — the final count is the
    initial count plus the number of increments minus the number of decrements of ALL threads (so it returns to its initial value
-   when every thread destroys the copies it made, and the tables are neither freed early nor leaked).
+   when every thread destroys the copies it made).  This is CONSERVATION of the count only; what the count is for -- the tables are freed
+   exactly once, and not while a sharer is live -- is RaceFreeRefcount.v.
    Each fetch_add / fetch_sub is one atomic step: that is the meaning of std::atomic, and the assumption of this file. *)
 From Coq Require Import List ZArith Lia.
 From C16 Require Import RaceFree RaceFreeDisjoint.
@@ -70,22 +71,38 @@ Qed.
 (* ---- the premise "each update is ONE atomic read-modify-write" is read from the source: harness/c18_values.py lists, for every
    function of the library that touches a std::atomic, the operations in evaluation order (gen/RaceFreeGen.v: atomic_sites) *)
 From Coq Require Import String Bool.
-Inductive aaccess := ARmw | ALoad | AStore.
-   (* ARmw: fetch_add / fetch_sub / ++ / -- / += / exchange / compare_exchange;  ALoad: load() / conversion;  AStore: store() / operator= *)
+Inductive aaccess := ARmw | ALoad | AStore | ADecWeak.
+   (* ARmw: fetch_add / fetch_sub / ++ / -- / += / exchange / compare_exchange;  ALoad: load() / conversion;  AStore: store() / operator=;
+      ADecWeak: fetch_sub with memory_order_relaxed / consume / acquire / release only (the freeing thread is not ordered after the last uses) *)
 Record asite := { as_name : string; as_fresh : bool;      (* a constructor other than the copy constructor: the object is not shared yet *)
                   as_accesses : list aaccess }.
-Definition is_store (a : aaccess) : bool := match a with AStore => true | _ => false end.
+Definition is_rmw (a : aaccess) : bool := match a with ARmw => true | _ => false end.
+(* a shared counter (any site that is not a constructor of a fresh object) may only be accessed by single strong RMWs: no store
+   (load + store, x = x + 1, blind store: lost update), no separate load (the zero test must use the VALUE RETURNED by the decrement:
+   [ARmw; ALoad] is the double-free pattern of separate_zero_test_refuted), no weakly ordered decrement *)
 Definition atomic_split_updates (l : list asite) : list string :=
-  map as_name (filter (fun s => negb (as_fresh s) && existsb is_store (as_accesses s)) l).
+  map as_name (filter (fun s => negb (as_fresh s) && negb (forallb is_rmw (as_accesses s))) l).
 
 Definition NoSplitNoStore_stmt : Prop :=
-  forall l, atomic_split_updates l = [] -> forall s, In s l -> as_fresh s = false -> ~ In AStore (as_accesses s).
+  forall l, atomic_split_updates l = [] -> forall s, In s l -> as_fresh s = false -> forall a, In a (as_accesses s) -> a = ARmw.
 Lemma no_split_updates_no_store : NoSplitNoStore_stmt.
 Proof.
-  intros l Hnil s Hin Hf Hst.
-  assert (In s (filter (fun s => negb (as_fresh s) && existsb is_store (as_accesses s)) l)) as Hi.
-  { apply filter_In. split; [exact Hin|]. rewrite Hf. cbn. apply existsb_exists. exists AStore. split; [exact Hst|reflexivity]. }
-  unfold atomic_split_updates in Hnil. apply (in_map as_name) in Hi. rewrite Hnil in Hi. destruct Hi.
+  intros l Hnil s Hin Hf a Ha.
+  destruct (forallb is_rmw (as_accesses s)) eqn:E.
+  - rewrite forallb_forall in E. specialize (E a Ha). destruct a; try discriminate; reflexivity.
+  - assert (In s (filter (fun s => negb (as_fresh s) && negb (forallb is_rmw (as_accesses s))) l)) as Hi.
+    { apply filter_In. split; [exact Hin|]. rewrite Hf, E. reflexivity. }
+    unfold atomic_split_updates in Hnil. apply (in_map as_name) in Hi. rewrite Hnil in Hi. destruct Hi.
+Qed.
+
+Definition SplitListRmw_stmt : Prop :=
+  forall l L, atomic_split_updates l = L -> forall s, In s l -> as_fresh s = false -> ~ In (as_name s) L -> forall a, In a (as_accesses s) -> a = ARmw.
+Lemma split_list_rmw : SplitListRmw_stmt.
+Proof.
+  intros l L HL s Hin Hf Hn a Ha.
+  destruct (forallb is_rmw (as_accesses s)) eqn:E.
+  - rewrite forallb_forall in E. specialize (E a Ha). destruct a; try discriminate; reflexivity.
+  - exfalso. apply Hn. rewrite <- HL. unfold atomic_split_updates. apply in_map. apply filter_In. split; [exact Hin|]. rewrite Hf, E. reflexivity.
 Qed.
 
 (* ---- the premise is needed: an increment written as load + store (every access still atomic, no data race in the C++ sense,
